@@ -20,6 +20,12 @@
    dead (contradictory requires / vacuous proof) and turns the unit UNDECIDED. */
 #define VREACH(cond, label) __CPROVER_assert(!(cond), "VREACH " label)
 
+/* the same inside a contract: a postcondition that MUST FAIL.  Only legal
+   under #ifdef VERIF_ENFORCE_<function> (the driver defines it in the unit
+   that enforces that contract and nowhere else), so that it is never assumed
+   at a call site.  One per source line. */
+#define REACH_ENSURES(cond) __CPROVER_ensures(!(cond))
+
 /* ---- stack budget for alloca ------------------------------------------
    The real build uses the compiler's alloca.  Here every alloca site first
    passes through an obligation that the request fits a fixed budget (1 MiB
